@@ -617,7 +617,7 @@ func c14Scenario(run *evid.Run, i int, j *Journal) {
 	if nontrivial {
 		run.NonTrivial(kind + "/" + regime + "/" + model.DigestSeq(tr))
 	}
-	if i < 3 {
+	if i < 3 || run.NumSamples() < 2 {
 		run.Sample(wit())
 	}
 }
